@@ -107,10 +107,36 @@ theorem opIf_res (push : Bool) (c : Nat) (cs : CS) : (opIf push c cs).res = cs.r
 
 theorem resTy_cvalue_account (s : String) : resTy (.const (.account s)) = .account := rfl
 
+theorem pushIf_ext' (push : Bool) (a : Nat) (cs : CS) : ∃ seg, Ext cs (pushIf push a cs) seg :=
+  ⟨_, (pushIf_ext push a cs).1⟩
+
+theorem opIf_ext' (push : Bool) (c : Nat) (cs : CS) : ∃ seg, Ext cs (opIf push c cs) seg :=
+  ⟨_, (opIf_ext push c cs).1⟩
+
+theorem Ext.comp {a b c : CS} (h1 : ∃ s, Ext a b s) (h2 : ∃ s, Ext b c s) : ∃ s, Ext a c s := by
+  obtain ⟨s1, e1⟩ := h1
+  obtain ⟨s2, e2⟩ := h2
+  exact ⟨_, e1.trans e2⟩
+
+/-- Resource-table facts about the code of an expression (no environment needed). -/
+structure ExprRes' (ds : Decls) (cs cs' : CS) (t ty : Ty) (oa : Option Nat) : Prop where
+  inv : ResInv ds cs'.res
+  ty_eq : t = ty
+  ext : ∃ seg, Ext cs cs' seg
+  addr : ∀ a, oa = some a → ∃ r, cs'.res[a]? = some r ∧ resTy r = ty
+
+theorem constExpr_res {ds : Decls} {c : CValue} {push : Bool} {cs cs1 : CS} {a : Nat} {ty : Ty}
+    (hty : resTy (.const c) = ty) (hal : allocConst c cs = .ok (a, cs1)) (hi : ResInv ds cs.res) :
+    ExprRes' ds cs (pushIf push a cs1) ty ty (some a) := by
+  obtain ⟨e1, hres, _⟩ := allocConst_ok hal
+  refine ⟨by rw [pushIf_res]; exact allocConst_res hal hi, rfl,
+    Ext.comp ⟨_, e1⟩ (pushIf_ext' push a cs1), ?_⟩
+  intro a' ha'; cases ha'
+  exact ⟨_, by rw [pushIf_res]; exact hres, hty⟩
+
 theorem cExpr_res (ds : Decls) :
     (e : Expr) → ∀ push cs t oa cs' ty, cExpr e push cs = .ok ((t, oa), cs') → typeExpr ds e = .ok ty →
-    VarsInv ds cs → ResInv ds cs.res →
-    ResInv ds cs'.res ∧ ∀ a, oa = some a → ∃ r, cs'.res[a]? = some r ∧ resTy r = ty
+    VarsInv ds cs → ResInv ds cs.res → ExprRes' ds cs cs' t ty oa
   | .acct s, push, cs, t, oa, cs', ty, h, ht, _, hi => by
     simp only [cExpr] at h
     split at h
@@ -118,9 +144,7 @@ theorem cExpr_res (ds : Decls) :
     · rename_i a cs1 hal
       cases h
       simp only [typeExpr] at ht; cases ht
-      obtain ⟨_, hres, _⟩ := allocConst_ok hal
-      rw [pushIf_res]
-      exact ⟨allocConst_res hal hi, fun a' ha' => by cases ha'; exact ⟨_, hres, rfl⟩⟩
+      exact constExpr_res rfl hal hi
   | .asset s, push, cs, t, oa, cs', ty, h, ht, _, hi => by
     simp only [cExpr] at h
     split at h
@@ -129,9 +153,7 @@ theorem cExpr_res (ds : Decls) :
       cases h
       simp only [typeExpr] at ht
       split at ht <;> cases ht
-      obtain ⟨_, hres, _⟩ := allocConst_ok hal
-      rw [pushIf_res]
-      exact ⟨allocConst_res hal hi, fun a' ha' => by cases ha'; exact ⟨_, hres, rfl⟩⟩
+      exact constExpr_res rfl hal hi
   | .num n, push, cs, t, oa, cs', ty, h, ht, _, hi => by
     simp only [cExpr] at h
     split at h
@@ -139,9 +161,7 @@ theorem cExpr_res (ds : Decls) :
     · rename_i a cs1 hal
       cases h
       simp only [typeExpr] at ht; cases ht
-      obtain ⟨_, hres, _⟩ := allocConst_ok hal
-      rw [pushIf_res]
-      exact ⟨allocConst_res hal hi, fun a' ha' => by cases ha'; exact ⟨_, hres, rfl⟩⟩
+      exact constExpr_res rfl hal hi
   | .str s, push, cs, t, oa, cs', ty, h, ht, _, hi => by
     simp only [cExpr] at h
     split at h
@@ -149,9 +169,7 @@ theorem cExpr_res (ds : Decls) :
     · rename_i a cs1 hal
       cases h
       simp only [typeExpr] at ht; cases ht
-      obtain ⟨_, hres, _⟩ := allocConst_ok hal
-      rw [pushIf_res]
-      exact ⟨allocConst_res hal hi, fun a' ha' => by cases ha'; exact ⟨_, hres, rfl⟩⟩
+      exact constExpr_res rfl hal hi
   | .portion x, push, cs, t, oa, cs', ty, h, ht, _, hi => by
     simp only [cExpr] at h
     split at h
@@ -162,9 +180,7 @@ theorem cExpr_res (ds : Decls) :
       · rename_i a cs1 hal
         cases h
         simp only [typeExpr, hp] at ht; cases ht
-        obtain ⟨_, hres, _⟩ := allocConst_ok hal
-        rw [pushIf_res]
-        exact ⟨allocConst_res hal hi, fun a' ha' => by cases ha'; exact ⟨_, hres, rfl⟩⟩
+        exact constExpr_res rfl hal hi
   | .var x, push, cs, t, oa, cs', ty, h, ht, hv, hi => by
     simp only [cExpr] at h
     split at h
@@ -177,8 +193,9 @@ theorem cExpr_res (ds : Decls) :
         obtain ⟨r', h1, h2, h3⟩ := hv x idx hl
         rw [hr] at h1; cases h1
         simp only [typeExpr, h3] at ht; cases ht
-        rw [pushIf_res]
-        exact ⟨hi, fun a' ha' => by cases ha'; exact ⟨_, hr, rfl⟩⟩
+        refine ⟨by rw [pushIf_res]; exact hi, rfl, pushIf_ext' push idx cs, ?_⟩
+        intro a' ha'; cases ha'
+        exact ⟨_, by rw [pushIf_res]; exact hr, rfl⟩
   | .mon ae n, push, cs, t, oa, cs', ty, h, ht, hv, hi => by
     simp only [typeExpr] at ht
     split at ht
@@ -192,24 +209,27 @@ theorem cExpr_res (ds : Decls) :
         · cases h
         · cases h
         · rename_i t0 assetAddr cs1 hae
-          obtain ⟨i1, i2⟩ := cExpr_res ds ae false cs t0 (some assetAddr) cs1 .asset hae hta hv hi
-          obtain ⟨r', hr', hrt⟩ := i2 assetAddr rfl
+          have ih := cExpr_res ds ae false cs t0 (some assetAddr) cs1 .asset hae hta hv hi
+          obtain ⟨r', hr', hrt⟩ := ih.addr assetAddr rfl
           split at h
           · rename_i i hfi
             cases h
             obtain ⟨x, hx, hp⟩ := findIdx?_some hfi
             have : x = Res.mon assetAddr n := by simpa using hp
             subst this
-            rw [pushIf_res]
-            exact ⟨i1, fun a' ha' => by cases ha'; exact ⟨_, hx, rfl⟩⟩
+            refine ⟨by rw [pushIf_res]; exact ih.inv, rfl, Ext.comp ih.ext (pushIf_ext' push i cs1), ?_⟩
+            intro a' ha'; cases ha'
+            exact ⟨_, by rw [pushIf_res]; exact hx, rfl⟩
           · split at h
             · cases h
             · rename_i a cs2 hal
               cases h
-              obtain ⟨_, hres, _⟩ := allocRes_ok hal
-              rw [pushIf_res]
-              refine ⟨allocRes_res hal i1 ⟨(List.getElem?_eq_some_iff.mp hr').1, r', hr', hrt⟩, ?_⟩
-              intro a' ha'; cases ha'; exact ⟨_, hres, rfl⟩
+              obtain ⟨e2, hres, _⟩ := allocRes_ok hal
+              refine ⟨by rw [pushIf_res]; exact allocRes_res hal ih.inv
+                  ⟨(List.getElem?_eq_some_iff.mp hr').1, r', hr', hrt⟩, rfl,
+                Ext.comp (Ext.comp ih.ext ⟨_, e2⟩) (pushIf_ext' push a cs2), ?_⟩
+              intro a' ha'; cases ha'
+              exact ⟨_, by rw [pushIf_res]; exact hres, rfl⟩
       · cases ht
   | .add l r, push, cs, t, oa, cs', ty, h, ht, hv, hi => by
     simp only [cExpr] at h
@@ -230,12 +250,84 @@ theorem cExpr_res (ds : Decls) :
             split at ht
             · rename_i heq
               cases ht; subst heq
-              obtain ⟨s1, e1, _, t1, _⟩ := cExpr_ok ds [] (by intro x t hx; exact absurd hx (by
-                  intro h; exact nomatch h)) l push cs lt la cs1 .number hl htl hv |>.elim (fun _ => id) |> fun x => x
-              sorry
+              have i1 := cExpr_res ds l push cs lt la cs1 .number hl htl hv hi
+              obtain ⟨s1, e1⟩ := i1.ext
+              have i2 := cExpr_res ds r push cs1 rt0 ra cs2 .number hr htr (hv.ext e1) i1.inv
+              have := i1.ty_eq; subst this
+              simp only at h
+              cases h
+              exact ⟨by rw [opIf_res]; exact i2.inv, rfl,
+                Ext.comp (Ext.comp i1.ext i2.ext) (opIf_ext' push _ cs2), fun a ha => by cases ha⟩
             · cases ht
-        · sorry
+        · rename_i htl
+          split at ht
+          · cases ht
+          · rename_i rt htr
+            split at ht
+            · rename_i heq
+              cases ht; subst heq
+              have i1 := cExpr_res ds l push cs lt la cs1 .monetary hl htl hv hi
+              obtain ⟨s1, e1⟩ := i1.ext
+              have i2 := cExpr_res ds r push cs1 rt0 ra cs2 .monetary hr htr (hv.ext e1) i1.inv
+              have := i1.ty_eq; subst this
+              simp only at h
+              cases h
+              obtain ⟨s2, e2⟩ := i2.ext
+              obtain ⟨s3, e3⟩ := opIf_ext' push OP_MONETARY_ADD cs2
+              refine ⟨by rw [opIf_res]; exact i2.inv, rfl, ⟨_, (e1.trans e2).trans e3⟩, ?_⟩
+              intro a ha
+              obtain ⟨r', hr', hrt⟩ := i1.addr a ha
+              exact ⟨r', (e2.trans e3).res_get hr', hrt⟩
+            · cases ht
         · cases ht
-  | .sub l r, push, cs, t, oa, cs', ty, h, ht, hv, hi => by sorry
+  | .sub l r, push, cs, t, oa, cs', ty, h, ht, hv, hi => by
+    simp only [cExpr] at h
+    split at h
+    · cases h
+    · rename_i lt la cs1 hl
+      split at h
+      · cases h
+      · rename_i rres cs2 hr
+        obtain ⟨rt0, ra⟩ := rres
+        simp only [typeExpr] at ht
+        split at ht
+        · cases ht
+        · rename_i htl
+          split at ht
+          · cases ht
+          · rename_i rt htr
+            split at ht
+            · rename_i heq
+              cases ht; subst heq
+              have i1 := cExpr_res ds l push cs lt la cs1 .number hl htl hv hi
+              obtain ⟨s1, e1⟩ := i1.ext
+              have i2 := cExpr_res ds r push cs1 rt0 ra cs2 .number hr htr (hv.ext e1) i1.inv
+              have := i1.ty_eq; subst this
+              simp only at h
+              cases h
+              exact ⟨by rw [opIf_res]; exact i2.inv, rfl,
+                Ext.comp (Ext.comp i1.ext i2.ext) (opIf_ext' push _ cs2), fun a ha => by cases ha⟩
+            · cases ht
+        · rename_i htl
+          split at ht
+          · cases ht
+          · rename_i rt htr
+            split at ht
+            · rename_i heq
+              cases ht; subst heq
+              have i1 := cExpr_res ds l push cs lt la cs1 .monetary hl htl hv hi
+              obtain ⟨s1, e1⟩ := i1.ext
+              have i2 := cExpr_res ds r push cs1 rt0 ra cs2 .monetary hr htr (hv.ext e1) i1.inv
+              have := i1.ty_eq; subst this
+              simp only at h
+              cases h
+              obtain ⟨s2, e2⟩ := i2.ext
+              obtain ⟨s3, e3⟩ := opIf_ext' push OP_MONETARY_SUB cs2
+              refine ⟨by rw [opIf_res]; exact i2.inv, rfl, ⟨_, (e1.trans e2).trans e3⟩, ?_⟩
+              intro a ha
+              obtain ⟨r', hr', hrt⟩ := i1.addr a ha
+              exact ⟨r', (e2.trans e3).res_get hr', hrt⟩
+            · cases ht
+        · cases ht
 
 end Ledger.Machine
